@@ -174,6 +174,30 @@ def fam_uniformB(rng, harmonic):
     return p, cf, "uniformB-" + ("harmonic" if harmonic else "static")
 
 
+def fam_uniformB_aniso(rng):
+    """one anisotropic linear material (mu_x != mu_y), A = a1 x + a2 y prescribed all around: the flux density (a2, -a1) is uniform, H = B / mu per
+    axis, and the stored energy is Vol (Bx^2 / mu_x + By^2 / mu_y) / (2 mu0)"""
+    p = Problem("m")
+    p.units = rng.choice(UNITS)
+    p.precision = 1e-10
+    p.smartmesh = rng.choice([0, 1])
+    p.depth = rng.choice([1.0, 5.0])
+    W, H = rng.choice([2.0, 3.0]), rng.choice([1.0, 2.0])
+    mux, muy = rng.choice([(4.0, 40.0), (100.0, 5.0), (1.0, 20.0)])
+    u = UNIT_M[p.units]
+    Bx, By = rng.choice([0.7, -0.3]), rng.choice([-1.3, 0.5])
+    p.blockprops = [dict(name="aniso", Mu_x=mux, Mu_y=muy)]
+    p.bdryprops = [dict(name="lin", type=0, A_0=0.0, A_1=-By * u, A_2=Bx * u, Phi=0.0)]
+    bottom, top, left, right = box(p, W, H, split=False)
+    for s_ in bottom + top + left + right:
+        p.segs[s_]["bc"] = 0
+    p.add_label(W / 2, H / 2, 0, meshsize=rng.choice([0.3, 0.6]) * min(W, H) / 2)
+    vol = (W * u) * (H * u) * (p.depth * u)
+    cf = dict(value=lambda x, y: (-By * x + Bx * y) * u, energy=0.5 / MU0 * (Bx ** 2 / mux + By ** 2 / muy) * vol,
+              field=(Bx, By), probe=(W / 3, H / 3))
+    return p, cf, "uniformB-anisotropic"
+
+
 def fam_coax(rng, ms):
     """coaxial capacitor: V = V0 ln(b/r)/ln(b/a); quarter... full annulus from arcs"""
     p = Problem("e")
@@ -215,7 +239,7 @@ def main(argv):
     for r in range(nrep):
         fams += [lambda rr=rng: fam_plates(rr, False), lambda rr=rng: fam_plates(rr, True), lambda rr=rng: fam_slab(rr, False),
                  lambda rr=rng: fam_slab(rr, True), lambda rr=rng: fam_uniformB(rr, False), lambda rr=rng: fam_uniformB(rr, True),
-                 lambda rr=rng, v=2 * r: fam_layers(rr, v), lambda rr=rng, v=2 * r + 1: fam_layers(rr, v)]
+                 lambda rr=rng, v=2 * r: fam_layers(rr, v), lambda rr=rng, v=2 * r + 1: fam_layers(rr, v), lambda rr=rng: fam_uniformB_aniso(rr)]
     try:
         for t, mk in enumerate(fams):
             p, cf, name = mk()
